@@ -214,4 +214,40 @@ pub fn run(ctx: &mut Ctx) {
             }
         }
     }
+    // ---- S: a borrowed target succeeds on every route by which a verbatim scalar can arrive
+    #[derive(Deserialize, Debug, PartialEq)]
+    struct HostB<'a> {
+        #[serde(borrow)]
+        host: &'a str,
+    }
+    #[derive(Deserialize, Debug, PartialEq)]
+    struct HostO {
+        host: String,
+    }
+    let scalars: &[(&str, bool)] = &[("example", true), ("'single q'", true), ("\"double q\"", true), ("日本 é", true), ("\"esc\\n\"", false), ("'it''s'", false), ("two words", true)];
+    for (sc, verbatim) in scalars {
+        let routes: Vec<(&str, String)> = vec![
+            ("direct", format!("host: {sc}\n")),
+            ("flow", format!("{{host: {sc}}}\n")),
+            ("alias", format!("x: &a {sc}\nhost: *a\n")),
+            ("merge-inline", format!("<<: {{host: {sc}}}\nother: 1\n")),
+            ("merge-alias", format!("b: &b {{host: {sc}}}\n<<: *b\n")),
+            ("merge-list", format!("b: &b {{host: {sc}}}\n<<: [*b, {{z: 1}}]\n")),
+            ("after-other-keys", format!("zz: 1\nyy: [1, 2]\nhost: {sc}\n")),
+        ];
+        for (route, text) in routes {
+            ctx.direct_evaluations += 1;
+            ctx.count(&format!("borrow-route:{route}"));
+            let o = serde_saphyr::from_str::<HostO>(&text).map(|h| h.host);
+            let b = serde_saphyr::from_str::<HostB>(&text).map(|h| h.host.to_string());
+            let ok = match (&o, &b) {
+                (Ok(x), Ok(y)) => *verbatim && x == y,
+                (Ok(_), Err(_)) => !*verbatim,
+                _ => false,
+            };
+            if !ok {
+                ctx.fail("borrow-mismatch", format!("route {route}, {text:?}: borrowed {b:?}, owned {o:?}, verbatim in input: {verbatim}"), json!({"kind": "borrow-route", "text": text}));
+            }
+        }
+    }
 }
